@@ -94,7 +94,13 @@ func checkC02(c c02Case, rec *Rec) *Violation {
 			}
 			switch ru := ruAny.(type) {
 			case *rules.NetworkRule:
-				if c02Applicable(e.Model) && ru.Match(mkReq(q)) {
+				// "match the hostname": the independent reference evaluator where the entry is a
+				// mask rule with a model, the rule's own Match for regex patterns and model-less lines
+				matches := ru.Match(mkReq(q))
+				if e.Model != nil && isMaskPattern(e.Model.Pat) {
+					matches, _ = refMatch(*e.Model, q)
+				}
+				if c02Applicable(e.Model) && matches {
 					wantNet[ru.Text()] = true
 					cands = append(cands, ru)
 					if e.Model != nil {
@@ -119,6 +125,7 @@ func checkC02(c c02Case, rec *Rec) *Violation {
 			}
 		}
 		gotNet := setOf(netTexts(res.NetworkRules))
+
 		g4, g6 := map[string]bool{}, map[string]bool{}
 		for _, x := range res.HostRulesV4 {
 			g4[x.Text()] = true
@@ -221,12 +228,12 @@ func refBadfiltered(r *rules.NetworkRule, cands []*rules.NetworkRule, keys map[*
 func genC02(t *rapid.T) c02Case {
 	nl := rapid.IntRange(1, 3).Draw(t, "nlists")
 	c := c02Case{IDs: genListIDs(t, nl)}
-	hostsU := []string{"example.org", "www.example.org", "google.com", "a.com", "1.2.3.4", "notexample.org", "sub.example.org", "реклама.example", "счётчик.example", "abc.de"}
+	hostsU := []string{"example.org", "www.example.org", "google.com", "a.com", "1.2.3.4", "notexample.org", "sub.example.org", "реклама.example", "счётчик.example", "abc.de", "track.track.example.net", "ab.cd.ab.cd"}
 	for _, cp := range hostColliders[:3] {
 		hostsU = append(hostsU, cp[0], cp[1])
 	}
 	netPats := []string{"||example.org^", "||google.com^", "example", "a.com|", "||1.2.3.4^", "google", "||a.com^", "://1.2.", "|example.org|", "org",
-		"||реклама.example^", "счётчик", "||abc.de^"}
+		"||реклама.example^", "счётчик", "||abc.de^", "||track.example.net^", ".track.example.net^", "||ab.cd^", "abc.de"}
 	for _, cp := range hostColliders[:3] {
 		netPats = append(netPats, "||"+cp[0]+"^", "||"+cp[1]+"^", cp[0][:4], "/^"+cp[0][:3]+"[0-9]/")
 	}
@@ -266,6 +273,9 @@ func genC02(t *rapid.T) c02Case {
 			}
 		}
 		if wideMask(m.Pat) && !m.hasRestriction() {
+			m.Deny = []string{"b.net"}
+		}
+		if strings.Contains(m.Pat, "abc.de") && chance(t, "deny-on-hex-name", 2) {
 			m.Deny = []string{"b.net"}
 		}
 		mm := m
